@@ -420,6 +420,8 @@ static int ctx_new(const char *ctx_name, m_ctx_flags flags, const void *userdata
 /** Private API **/
 
 m_ctx_t *m_ctx(void) {
+    /* The key may not exist yet, when no context was ever registered in this process */
+    pthread_once(&key_once, make_key);
     m_ctx_t *c = pthread_getspecific(key);
     if (c && c->curr_mod) {
         M_RET_ASSERT(!(c->curr_mod->flags & M_MOD_DENY_CTX), NULL);
